@@ -350,8 +350,16 @@ def _dyadic(rng, shape, lo=-16, hi=16, den=8):
 
 def gen_params(rng, batch, n, r=None, kind="spd"):
     """Low-bit dyadic mean, root A (.. n x r) and covariance.  kind 'spd': S = A A^T + c I (exact in float64);
-    kind 'root': S = A A^T with A = lower-triangular-dominant full rank."""
+    'root': S = A A^T with a square (or given n x r) root; 'rootwide': full-rank covariance given by a WIDE root
+    n x (n+1..n+2); 'diag': diagonal covariance (A = diag of the square-free entries, unused)."""
     np = _np()
+    if kind == "rootwide":
+        r = n + rng.randint(1, 2) if r is None else r
+        kind = "root"
+    if kind == "diag":
+        dg = _dyadic(rng, tuple(batch) + (n,), 2, 24, 8)
+        S = dg[..., :, None] * np.eye(n)
+        return _dyadic(rng, tuple(batch) + (n,)), S.copy(), S
     r = n if r is None else r
     for _ in range(50):
         A = _dyadic(rng, tuple(batch) + (n, r), -8, 8, 8)
@@ -371,6 +379,12 @@ def gen_params(rng, batch, n, r=None, kind="spd"):
 
 
 REPS = ("dense", "lazy", "root", "addeddiag")
+# also: covariance given by a wide (non-square) root, and by a DiagLinearOperator
+REPS_ALL = REPS + ("rootwide", "diag")
+
+
+def _kind(rep):
+    return {"root": "root", "rootwide": "rootwide", "diag": "diag"}.get(rep, "spd")
 
 
 def make_dist(rep, mu, S, A=None):
@@ -385,8 +399,10 @@ def make_dist(rep, mu, S, A=None):
         return MultivariateNormal(tm, tS)
     if rep == "lazy":
         return MultivariateNormal(tm, to_linear_operator(tS))
-    if rep == "root":
+    if rep in ("root", "rootwide"):
         return MultivariateNormal(tm, RootLinearOperator(torch.tensor(A, dtype=torch.float64)))
+    if rep == "diag":
+        return MultivariateNormal(tm, DiagLinearOperator(torch.tensor(np.diagonal(S, axis1=-2, axis2=-1).copy(), dtype=torch.float64)))
     if rep == "addeddiag":
         n = S.shape[-1]
         dg = np.full(S.shape[:-1], 0.5)
@@ -721,7 +737,7 @@ def getitem_indices(batch, n, tier, rng, rep):
     nb = len(batch)
     E_full, E_small = _event_entries(n, True), _event_entries(n, False)
     out = []
-    heavy = tier == "thorough" or rep in ("dense", "lazy")
+    heavy = rep in ("dense", "lazy") or (tier == "thorough" and rep in REPS)
     if nb == 0:
         for e in (E_full if heavy else E_small):
             out.append((e,))
@@ -740,12 +756,13 @@ def getitem_indices(batch, n, tier, rng, rep):
     if tier == "quick":
         prefixes = [rng.choice(prefixes)] if heavy else prefixes[:1]
     for pre in prefixes:
-        for e in (E_full if heavy or tier == "thorough" else E_small):
+        # quick: the full event set under a batch prefix for n in {2, 4} (n = 1, 3 are exhaustive for batch () every run)
+        for e in (E_full if (heavy and (tier == "thorough" or n in (2, 4))) else E_small):
             out.append(tuple(pre) + (e,))
     # full batch sets x small event set
     bf = list(itertools.product(*Bf))
-    if tier == "quick" and len(bf) > 60:
-        bf = rng.sample(bf, 60)
+    if tier == "quick" and len(bf) > 30:
+        bf = rng.sample(bf, 30)
     for pre in bf:
         for e in E_small:
             out.append(tuple(pre) + (e,))
@@ -823,8 +840,10 @@ def run_logprob(case):
         with warnings.catch_warnings():
             warnings.simplefilter("ignore")
             d = make_dist(rep, mu, S, A)
+            tv = torch.tensor(v, dtype=torch.float64)
             with _cfg_ctx(cfg):
-                lp = d.log_prob(torch.tensor(v, dtype=torch.float64)).detach().numpy()
+                lp = d.log_prob(tv).detach().numpy()
+            v_after = tv.numpy().copy()
     except Exception as e:
         err = e
     lines, slots = [], []
@@ -851,6 +870,8 @@ def run_logprob(case):
             ld = 0.0 if cfg == "cg-quad" else _mp_log(det)
             exp[o] = -0.5 * (float(quad) + ld + n * math.log(2 * math.pi))
             res.setdefault("asm", []).append((f"asmlp {C.rat_str(quad)} {C.rat_str(ld)} {n} {C.rat_str(math.log(2 * math.pi))}", exp[o]))
+        if not np.array_equal(v_after, v):
+            res["fails"].append((f"logprob:argument-modified:{cls}", f"{where}: log_prob changed its `value` argument in place"))
         if lp.shape != exp.shape:
             res["fails"].append((f"logprob:shape:{cls}", f"{where}: log_prob has shape {lp.shape}, expected {exp.shape}"))
             return res
@@ -877,28 +898,46 @@ def logprob_cases(ctx, rng):
         if len(b) == 1:
             vs |= {(3, 1)}
         return sorted(vs)
-    for rep in REPS:
+    for rep in REPS_ALL:
         for b in batches:
             for vb in vshapes(b):
                 for cfg in LP_CFGS:
                     ns = [rng.randint(1, 5)] if quick else [1, 2, 3, 5]
                     for n in ns:
-                        mu, A, S = gen_params(rng, b, n, kind="root" if rep == "root" else "spd")
+                        mu, A, S = gen_params(rng, b, n, kind=_kind(rep))
                         v = _dyadic(rng, tuple(vb) + (n,))
                         out.append({"kind": "logprob", "rep": rep, "cfg": cfg, "mu": mu, "S": S, "A": A, "v": v})
     # mean batch vs covariance batch (broadcast representation)
     bpairs = [((), (2,)), ((2,), ()), ((1,), (2,)), ((2, 1), (3,)), ((3,), (2, 3)), ((2, 3), (3,)), ((2, 1), (2, 3)),
               ((1, 3), (2, 1)), ((2, 3), ())]
-    for rep in REPS:
+    for rep in REPS_ALL:
         for mb, cb in bpairs:
             full = _bshape(mb, cb)
             for vb in [(), full, (2,) + full] + ([(1,) * len(full)] if len(full) else []):
                 for cfg in (LP_CFGS if not quick else sorted({LP_CFGS[rng.randint(0, 2)], "lo-chol"})):
                     n = rng.randint(1, 4)
                     mu, _, _ = gen_params(rng, mb, n)
-                    _, A, S = gen_params(rng, cb, n, kind="root" if rep == "root" else "spd")
+                    _, A, S = gen_params(rng, cb, n, kind=_kind(rep))
                     v = _dyadic(rng, tuple(vb) + (n,))
                     out.append({"kind": "logprob", "rep": rep, "cfg": cfg, "mu": mu, "S": S, "A": A, "v": v})
+    # distribution batch shapes with size-1 dimensions (leading, inner, trailing; up to 3 batch dims) that broadcast against
+    # larger value dimensions: every value row must meet the covariance of ITS batch member
+    b1s = [(1,), (2, 1), (1, 3), (1, 1), (2, 1, 3), (1, 2, 1), (2, 2, 1)]
+    for rep in REPS_ALL:
+        for b in (b1s if not quick else rng.sample(b1s[1:3], 1) + rng.sample(b1s, 2)):
+            fullA = tuple(3 if t == 1 else t for t in b)
+            alt = tuple((4 if (t == 1 and i % 2 == 0) else t) for i, t in enumerate(b))
+            vbs = {fullA, (5,) + fullA, alt, fullA[1:], fullA[-1:], tuple(b), (2,) + tuple(b), (2, 1) + fullA}
+            for vb in (sorted(vbs) if not quick else rng.sample(sorted(vbs), 4) + [fullA, (5,) + fullA]):
+                try:
+                    _bshape(b, vb)
+                except ValueError:
+                    continue
+                for cfg in (LP_CFGS if not quick else ("lo-chol", rng.choice(LP_CFGS))):
+                    n = rng.randint(1, 4)
+                    mu, A, S = gen_params(rng, b, n, kind=_kind(rep))
+                    out.append({"kind": "logprob", "rep": rep, "cfg": cfg, "mu": mu, "S": S, "A": A,
+                                "v": _dyadic(rng, tuple(vb) + (n,))})
     return out
 
 
@@ -1025,28 +1064,28 @@ def kl_cases(ctx, rng):
     quick = ctx.tier == "quick"
     out = []
     bpairs = [((), ()), ((2,), (2,)), ((2, 3), (2, 3)), ((), (2,)), ((2,), ()), ((2, 3), (3,)), ((3,), (2, 3)), ((2, 1), (1, 3))]
-    for rp in REPS:
-        for rq in REPS:
-            for bp, bq in (bpairs if not quick else [bpairs[0]] + rng.sample(bpairs[1:], 3)):
+    for rp in REPS_ALL:
+        for rq in REPS_ALL:
+            for bp, bq in (bpairs if not quick else [bpairs[0]] + rng.sample(bpairs[1:], 2)):
                 for fast in (True, False):
                     n = rng.randint(1, 5)
-                    mup, Ap, Sp = gen_params(rng, bp, n, kind="root" if rp == "root" else "spd")
-                    muq, Aq, Sq = gen_params(rng, bq, n, kind="root" if rq == "root" else "spd")
+                    mup, Ap, Sp = gen_params(rng, bp, n, kind=_kind(rp))
+                    muq, Aq, Sq = gen_params(rng, bq, n, kind=_kind(rq))
                     out.append({"kind": "kl", "fast": fast, "p": {"rep": rp, "mu": mup, "S": Sp, "A": Ap},
                                 "q": {"rep": rq, "mu": muq, "S": Sq, "A": Aq}})
-    for rp in REPS:
-        for b in [(), (2,), (2, 3)]:
+    for rp in REPS_ALL:
+        for b in [(), (2,), (2, 3), (2, 1)]:
             for fast in (True, False):
                 n = rng.randint(1, 5)
-                mu, A, S = gen_params(rng, b, n, kind="root" if rp == "root" else "spd")
+                mu, A, S = gen_params(rng, b, n, kind=_kind(rp))
                 P = {"rep": rp, "mu": mu, "S": S, "A": A}
                 out.append({"kind": "kl", "fast": fast, "same": True, "p": P, "q": P})
                 # equal parameters, different representation object
                 out.append({"kind": "kl", "fast": fast, "p": P, "q": {"rep": "dense", "mu": mu, "S": S, "A": A}})
-    for rp in REPS:
+    for rp in REPS_ALL:
         for b, vb in [((), ()), ((2,), (2,)), ((2, 3), (2, 3)), ((2,), ()), ((), (3,))]:
             n = rng.randint(1, 5)
-            mu, A, S = gen_params(rng, b, n, kind="root" if rp == "root" else "spd")
+            mu, A, S = gen_params(rng, b, n, kind=_kind(rp))
             out.append({"kind": "delta", "rep": rp, "mu": mu, "S": S, "A": A, "v": _dyadic(rng, tuple(vb) + (n,))})
     return out
 
@@ -1079,7 +1118,9 @@ def run_rsample(case):
                 u[..., j] = 1.0
                 cols.append(d.rsample(base_samples=torch.tensor(u)).detach().numpy() - mu_full)
             out["X"] = np.stack(cols, -1) if k else np.zeros(B + (n, 0))
-            out["x"] = d.rsample(base_samples=torch.tensor(e, dtype=torch.float64)).detach().numpy()
+            te = torch.tensor(e, dtype=torch.float64)
+            out["x"] = d.rsample(base_samples=te).detach().numpy()
+            out["e_after"] = te.numpy().copy()
     except Exception as ex:
         err = ex
     lines, slots = [], []
@@ -1113,6 +1154,8 @@ def run_rsample(case):
             dev = float(np.max(np.abs(XXt - S_full)))
             res["fails"].append((f"rsample:root-second-moment{cls}", f"{where}: stacking rsample(e_j) - mean gives X with "
                                  f"max|X X^T - Sigma| = {dev:.3g}"))
+        if not np.array_equal(out["e_after"], e):
+            res["fails"].append((f"rsample:argument-modified{cls}", f"{where}: rsample changed `base_samples` in place"))
         x = out["x"]
         if x.shape != ss + B + (n,):
             res["fails"].append((f"rsample:shape{cls}", f"{where}: rsample(base_samples) has shape {x.shape}, expected "
@@ -1133,13 +1176,13 @@ def rsample_cases(ctx, rng):
     quick = ctx.tier == "quick"
     out = []
     sss = [(), (1,), (3,), (2, 2)]
-    for rep in REPS:
-        for b in [(), (2,), (2, 3)]:
+    for rep in REPS_ALL:
+        for b in [(), (2,), (2, 3)] + ([(2, 1, 2)] if (not quick or rep in ("lazy", "rootwide")) else []):
             for ss in sss:
                 for n in ([rng.randint(1, 4)] if quick else [1, 2, 4]):
-                    mu, A, S = gen_params(rng, b, n, kind="root" if rep == "root" else "spd")
+                    mu, A, S = gen_params(rng, b, n, kind=_kind(rep))
                     out.append({"kind": "rsample", "rep": rep, "mu": mu, "S": S, "A": A, "ss": list(ss),
-                                "e": _dyadic(rng, tuple(ss) + tuple(b) + (n,))})
+                                "e": _dyadic(rng, tuple(ss) + tuple(b) + ((A.shape[-1] if rep in ("root", "rootwide") else n),))})
     # roots with r != n (rank-deficient and wide)
     for b in [(), (2,), (2, 3)]:
         for ss in sss:
@@ -1154,7 +1197,7 @@ def rsample_cases(ctx, rng):
             for ss in ([(), (3,)] if quick else sss):
                 n = rng.randint(1, 4)
                 mu, _, _ = gen_params(rng, mb, n)
-                _, A, S = gen_params(rng, cb, n, kind="root" if rep == "root" else "spd")
+                _, A, S = gen_params(rng, cb, n, kind=_kind(rep))
                 out.append({"kind": "rsample", "rep": rep, "mu": mu, "S": S, "A": A, "ss": list(ss),
                             "e": _dyadic(rng, tuple(ss) + full + (n,))})
     return out
@@ -1211,7 +1254,7 @@ def run_op(case):
                 elif op == "unsqueeze":
                     r = d.unsqueeze(arg)
                 elif op == "jitter":
-                    r = d.add_jitter(arg)
+                    r = d.add_jitter(arg) if arg is not None else d.add_jitter()
                 out["mean"] = r.mean.detach().numpy()
                 out["cov"] = r.covariance_matrix.detach().numpy()
                 out["batch"] = tuple(r.batch_shape)
@@ -1225,8 +1268,9 @@ def run_op(case):
             lines.append(f"conf {C.vec_tokens(mu_f[b])} {C.vec_tokens(out['sd'][b])}")
             slots.append(b)
     elif op in ("add_scalar", "radd_scalar", "mul", "div"):
-        a_, b_ = {"add_scalar": (1, arg), "radd_scalar": (1, arg), "mul": (arg, 0),
-                  "div": ((1.0 / arg) if arg != 0 else 0, 0)}[op]
+        sa = float(arg) if isinstance(arg, bool) else arg      # True / False are the ints 1 / 0
+        a_, b_ = {"add_scalar": (1, sa), "radd_scalar": (1, sa), "mul": (sa, 0),
+                  "div": ((1.0 / sa) if sa != 0 else 0, 0)}[op]
         for b in itertools.product(*[range(t) for t in B]):
             lines.append(f"affine {C.rat_str(a_)} {C.rat_str(b_)} {C.vec_tokens(mu_f[b])} {C.mat_tokens(S_f[b])}")
             slots.append(b)
@@ -1240,7 +1284,7 @@ def run_op(case):
             slots.append(b)
     elif op == "jitter":
         for b in itertools.product(*[range(t) for t in B]):
-            lines.append(f"jitter {C.rat_str(arg)} {C.mat_tokens(S_f[b])}")
+            lines.append(f"jitter {C.rat_str(arg if arg is not None else 1e-4)} {C.mat_tokens(S_f[b])}")
             slots.append(b)
     elif op == "unsqueeze":
         lines.append(f"unsq {len(B)} {arg}")
@@ -1319,7 +1363,7 @@ def run_op(case):
             res["fails"].append((f"{op}:mean{cls}", f"{where}: mean (shape {out['mean'].shape}) differs from the mean of the "
                                  f"transformed random vector (shape {em.shape})"))
         for nm in ("cov", "lazy_cov"):
-            if not _allclose(out[nm], ec):
+            if not (_allclose(out[nm], ec) and (op != "jitter" or _relclose(out[nm], ec, _cov_scale(ec) + 1e-30, 1e-7))):
                 res["fails"].append((f"{op}:covariance{cls}", f"{where}: {nm} (shape {out[nm].shape}) differs from the covariance "
                                      f"of the transformed random vector (shape {ec.shape})"))
                 break
@@ -1332,12 +1376,12 @@ def run_op(case):
 def op_cases(ctx, rng):
     quick = ctx.tier == "quick"
     out = []
-    scal = [2, -3, 0.5, -0.75, 1, 1.0, 0, 4.0]
-    for rep in REPS:
-        for b in [(), (2,), (2, 3)]:
+    scal = [2, -3, 0.5, -0.75, 1, 1.0, 0, 0.0, 4.0, True, False]
+    for rep in REPS_ALL:
+        for b in [(), (2,), (2, 3)] + ([(2, 1, 2)] if (not quick or rep in ("lazy", "rootwide")) else []):
             def P(n=None, bb=b, rp=rep):
                 n = n or rng.randint(1, 4)
-                mu, A, S = gen_params(rng, bb, n, kind="root" if rp == "root" else "spd")
+                mu, A, S = gen_params(rng, bb, n, kind=_kind(rp))
                 return {"rep": rp, "mu": mu, "S": S, "A": A}
             out.append(dict(P(), kind="op", op="moments"))
             for s in (scal if not quick else rng.sample(scal, 3)):
@@ -1346,28 +1390,28 @@ def op_cases(ctx, rng):
                 if s != 0:
                     out.append(dict(P(), kind="op", op="div", arg=s))
             out.append(dict(P(), kind="op", op="radd_scalar", arg=rng.choice([0, 2, -1.5])))
-            for rep2 in (REPS if not quick else rng.sample(REPS, 2)):
+            for rep2 in (REPS_ALL if not quick else rng.sample(REPS_ALL, 2)):
                 for b2 in ([b] if quick else sorted({b, ()})):
                     n = rng.randint(1, 4)
                     p1 = P(n)
                     out.append(dict(p1, kind="op", op="sum", arg=P(n, b2, rep2)))
             # sum with broadcasting batch shapes
             n = rng.randint(1, 3)
-            out.append(dict(P(n), kind="op", op="sum", arg=P(n, (), rng.choice(REPS))))
+            out.append(dict(P(n), kind="op", op="sum", arg=P(n, (), rng.choice(REPS_ALL))))
             if b == (2,):
-                out.append(dict(P(n), kind="op", op="sum", arg=P(n, (3, 1), rng.choice(REPS))))
+                out.append(dict(P(n), kind="op", op="sum", arg=P(n, (3, 1), rng.choice(REPS_ALL))))
             for tb in [b, (3,) + b, (2, 1) + b] + ([(4,)] if b == () else []):
                 out.append(dict(P(), kind="op", op="expand", arg=list(tb)))
             for dim in range(-len(b) - 2, len(b) + 2):
                 out.append(dict(P(), kind="op", op="unsqueeze", arg=dim))
-            for e in (0.25, 1e-4):
+            for e in (0.25, 1e-4, 0, 0.0, None, 3):    # None = add_jitter() with its default
                 out.append(dict(P(), kind="op", op="jitter", arg=e))
     # mean batch != covariance batch
     for rep in ("dense", "lazy", "root"):
         for mb, cb in [((), (2,)), ((2,), ()), ((1,), (2,)), ((2, 1), (1, 3))]:
             n = rng.randint(1, 3)
             mu, _, _ = gen_params(rng, mb, n)
-            _, A, S = gen_params(rng, cb, n, kind="root" if rep == "root" else "spd")
+            _, A, S = gen_params(rng, cb, n, kind=_kind(rep))
             P = {"rep": rep, "mu": mu, "S": S, "A": A}
             full = _bshape(mb, cb)
             out.append(dict(P, kind="op", op="moments"))
@@ -1422,7 +1466,7 @@ def moments_cases(ctx, rng):
     for rep in REPS:
         for b in ([()] if ctx.tier == "quick" else [(), (2,), (2, 3)]):
             n = rng.randint(1, 4)
-            mu, A, S = gen_params(rng, b, n, kind="root" if rep == "root" else "spd")
+            mu, A, S = gen_params(rng, b, n, kind=_kind(rep))
             out.append({"kind": "moments", "rep": rep, "mu": mu, "S": S, "A": A, "N": N, "seed": rng.torch_seed()})
     return out
 
@@ -1498,10 +1542,10 @@ def _getitem_cases(ctx, rng):
     np = _np()
     quick = ctx.tier == "quick"
     out = []
-    for rep in REPS:
+    for rep in REPS_ALL:
         for batch in [(), (2,), (2, 3)]:
-            for n in (1, 2, 3, 4):
-                mu, A, S = gen_params(rng, batch, n, kind="root" if rep == "root" else "spd")
+            for n in ((1, 2, 3, 4) if (not quick or rep in REPS) else (rng.choice((1, 2, 3)), 4)):
+                mu, A, S = gen_params(rng, batch, n, kind=_kind(rep))
                 for idx in getitem_indices(batch, n, ctx.tier, rng, rep):
                     out.append({"kind": "getitem", "rep": rep, "mu": mu, "S": S, "A": A, "idx": idx_json(idx)})
     # mean batch != covariance batch
@@ -1509,7 +1553,7 @@ def _getitem_cases(ctx, rng):
         for mb, cb in [((), (2,)), ((2,), ()), ((1,), (2,)), ((2, 1), (1, 3))]:
             n = 3
             mu, _, _ = gen_params(rng, mb, n)
-            _, A, S = gen_params(rng, cb, n, kind="root" if rep == "root" else "spd")
+            _, A, S = gen_params(rng, cb, n, kind=_kind(rep))
             full = _bshape(mb, cb)
             for idx in [(0,), (slice(None), 0) if len(full) else (Ellipsis, slice(0, 2)), (Ellipsis, slice(1, None)),
                         (Ellipsis, [2, 0]), (-1, Ellipsis)]:
@@ -1522,7 +1566,7 @@ def _getitem_cases(ctx, rng):
 def all_cases(ctx):
     cases = []
     cases += _getitem_cases(ctx, ctx.rng("getitem"))
-    cases += logprob_cases(ctx, ctx.rng("logprob"))
+    cases += [c for c in logprob_cases(ctx, ctx.rng("logprob")) if not (c["rep"] == "diag" and c["cfg"] == "cg-quad")]
     kc = kl_cases(ctx, ctx.rng("kl"))
     for i, c in enumerate(kc):
         c["serial"] = i
@@ -1752,6 +1796,8 @@ def run_hist(case):
     # ---- expected parameters, by the same operations on the random vector
     m2, S2, sc = mu.copy(), S.copy(), 1.0
     for name, arg in ops:
+        if isinstance(arg, bool):
+            arg = int(arg)
         if name == "mul":
             m2, S2, sc = m2 * arg, S2 * (arg * arg), sc * abs(arg)
         elif name == "div":
@@ -1832,7 +1878,8 @@ def run_hist(case):
                 tv2 = torch.tensor(v2, dtype=torch.float64)
                 # CG on a covariance scaled far away from 1 is limited by absolute thresholds inside linear_operator's
                 # CG (outside /repo): the quad-only CG path is exercised for moderate scales only
-                out["cfgs"] = [c for c in LP_CFGS if c != "cg-quad" or 1e-3 <= sc <= 1e3]
+                # (DiagLinearOperator has an exact inv_quad_logdet of its own that ignores skip_logdet_forward)
+                out["cfgs"] = [c for c in LP_CFGS if c != "cg-quad" or (1e-3 <= sc <= 1e3 and rep != "diag")]
                 for cfg in out["cfgs"]:
                     try:
                         with _cfg_ctx(cfg):
@@ -1858,6 +1905,13 @@ def run_hist(case):
                     out["Xverdict"] = _root_split(r, out["X"], S2) if out["X"].shape[:-1] == B2 + (n2,) else ("gpytorch", float("nan"))
                 except Exception as e:
                     out["X"] = e
+                    try:   # did the primitive break its contract (R R^T = A, for a non-root operator an n x n root)?
+                        R = r.lazy_covariance_matrix.root_decomposition().root.to_dense().detach().numpy()
+                        Rb = np.broadcast_to(R, B2 + R.shape[-2:])
+                        if not _relclose(Rb @ np.swapaxes(Rb, -1, -2), S2, _cov_scale(S2), 1e-7):
+                            out["Xprim"] = float(np.max(np.abs(Rb @ np.swapaxes(Rb, -1, -2) - S2)))
+                    except Exception:
+                        pass
             # the source distribution must be what it was
             out["src_mean"], out["src_cov"] = d.mean.detach().numpy(), d.covariance_matrix.detach().numpy()
             try:
@@ -1943,7 +1997,11 @@ def run_hist(case):
                     fail("scale_tril", "scale_tril is not the lower Cholesky factor (positive diagonal, L L^T = covariance) "
                          f"of the result; min diagonal {np.min(np.diagonal(Lb, axis1=-2, axis2=-1)):.3g}")
             X = out["X"]
-            if isinstance(X, Exception):
+            if isinstance(X, Exception) and "Xprim" in out:
+                res["assumption"] = (f"linear_operator root_decomposition() of {opsname} result ({rep}) violates R R^T = A "
+                                     f"(max dev {out['Xprim']:.3g}); rsample(base_samples) raised {type(X).__name__}")
+                res["prim"] = f"root_decomposition:{rep}:{opsname}"
+            elif isinstance(X, Exception):
                 fail("rsample", f"rsample(base_samples) raises {type(X).__name__}: {str(X)[:120]}")
             elif out["Xverdict"][0] == "gpytorch":
                 fail("rsample", f"stacked unit-vector responses X of the result do not satisfy X X^T = covariance (max dev "
@@ -1970,12 +2028,12 @@ def hist_cases(ctx, rng):
     scal = [-2, -0.5, -1, -1.0, 3, 0.25, 2.0 ** -20, -(2.0 ** -20), 0, -3.0]
     pres = [[], ["lp-torch"], ["lp-lo"], ["rsample"], ["scale_tril"], ["entropy"], ["variance", "cov"],
             ["lp-lo", "lp-torch", "rsample"]]
-    for rep in REPS:
-        for b in [(), (2,), (2, 3)]:
+    for rep in REPS_ALL:
+        for b in [(), (2,), (2, 3)] + ([(2, 1, 2)] if (not quick or rep in ("lazy", "rootwide")) else []):
             def P(n, bb=b, rp=rep):
-                mu, A, S = gen_params(rng, bb, n, kind="root" if rp == "root" else "spd")
+                mu, A, S = gen_params(rng, bb, n, kind=_kind(rp))
                 return {"rep": rp, "mu": mu, "S": S, "A": A}
-            for pre in (pres if not quick else [pres[0]] + rng.sample(pres[1:], 3)):
+            for pre in (pres if not quick else [pres[0]] + rng.sample(pres[1:], 2)):
                 for s in (scal if not quick else rng.sample(scal[:4], 2) + rng.sample(scal[4:], 2)):
                     n = rng.randint(1, 4)
                     base = dict(P(n), kind="hist", pre=pre, z=_dyadic(rng, tuple(b) + (n,), -12, 12, 8))
@@ -1992,8 +2050,9 @@ def hist_cases(ctx, rng):
                     [["mul", neg], ["use", "lp-torch"], ["div", -2]], [["mul", neg], ["add_scalar", 0.5], ["use", "entropy"]],
                     [["expand", list((2,) + b)], ["mul", neg]], [["mul", neg], ["expand", list((3,) + b)]],
                     [["unsqueeze", 0], ["mul", neg]], [["mul", neg], ["unsqueeze", -1]],
-                    [["jitter", 0.25], ["mul", neg]], [["mul", neg], ["jitter", 0.25]],
-                    [["sum", P(n, b, rng.choice(REPS))], ["mul", neg]], [["mul", neg], ["sum", P(n, b, rng.choice(REPS))]],
+                    [["jitter", 0.25], ["mul", neg]], [["mul", neg], ["jitter", 0.25]], [["jitter", 0.0]], [["jitter", 0], ["mul", neg]],
+                    [["add_scalar", 0]], [["mul", True]], [["add_scalar", 0.0], ["mul", neg]],
+                    [["sum", P(n, b, rng.choice(REPS_ALL))], ["mul", neg]], [["mul", neg], ["sum", P(n, b, rng.choice(REPS_ALL))]],
                     [["expand", list((2,) + b)], ["use", "lp-torch"], ["div", neg]],
                 ]
                 if len(b):
@@ -2002,7 +2061,7 @@ def hist_cases(ctx, rng):
                 else:
                     others += [[["mul", neg], ["getitem", idx_json((slice(0, max(1, n - 1)),))]],
                                [["getitem", idx_json(([n - 1, 0],))], ["mul", neg]]]
-                for ops in (others if not quick else rng.sample(others, 5)):
+                for ops in (others if not quick else rng.sample(others, 6)):
                     out.append(dict(base(), ops=ops))
     return out
 
@@ -2050,6 +2109,9 @@ def run_getitem_var(case):
                                     out["lp:" + cfg] = r.log_prob(torch.tensor(v, dtype=torch.float64)).detach().numpy()
                             except Exception as e:
                                 out["lp:" + cfg] = e
+                # the same object, used again after the settings block ended: the floor in force NOW applies
+                out["floor_after"] = _min_var()
+                out["pvar_after"] = d.variance.detach().numpy()
         except Exception as e:
             err = e
     lines, slots = [], []
@@ -2083,6 +2145,9 @@ def run_getitem_var(case):
         pv = np.maximum(np.diagonal(S, axis1=-2, axis2=-1), fl)
         if not _relclose(out["pvar"], pv, pv):
             fail("parent-variance", f"variance != max(diag, min_variance={fl})")
+        pva = np.maximum(np.diagonal(S, axis1=-2, axis2=-1), out["floor_after"])
+        if not _relclose(out["pvar_after"], pva, pva):
+            fail("parent-variance-after-block", f"variance of the same object after the min_variance block != max(diag, {out['floor_after']})")
         if vline is not None:
             want = np.array([float(Fraction(t)) for t in replies[-1].split()])
             if not _relclose(out["pvar"][vline], want, np.abs(want)):
@@ -2138,7 +2203,7 @@ def getitem_var_cases(ctx, rng):
                     continue       # torch's dense constructor needs a positive definite matrix
                 for n in ((4,) if quick else (2, 3, 4)):
                     sc = np.array(scales[:n])
-                    mu, A, S = gen_params(rng, batch, n, kind="root" if rep == "root" else "spd")
+                    mu, A, S = gen_params(rng, batch, n, kind=_kind(rep))
                     A2 = A * sc[:, None]
                     S2 = S * sc[:, None] * sc[None, :]
                     ev = list(range(-n, n)) + [slice(None), slice(1, None), slice(None, None, 2), slice(0, 2), [n - 1, 0],
